@@ -6,7 +6,8 @@ PROPS = ["C01"]
 META = dict(
     module="scenarios.c01_ledger", level="model_checking",
     bounds=dict(quick=hist.BOUNDS_QUICK + "; loans plans with loan amounts carrying 3 decimals more than the "
-                "symbol's precision", thorough=hist.BOUNDS_THOROUGH),
+                "symbol's precision; partial fills against off-grid liquidity (volumes 10, 127.83333333 at base "
+                "precision 0)", thorough=hist.BOUNDS_THOROUGH),
     stubs=hist.BASE_STUBS, assumptions=hist.BASE_ASSUMPTIONS,
     outside=hist.BASE_OUTSIDE,
     required_covers=["end of history", "an order was accepted", "a request was rejected: place"],
@@ -26,4 +27,7 @@ def extra_jobs(tier):
     ps = [dict(plan="loans", depth=2, bp=8, qp=2, lend="margin", namounts=1, closes=hist.CLOSES, kinds=["limit"],
                auto_borrow=False, auto_repay=ar, loan_symbol=ls, loan_extra_decimals=3)
           for ar in (False, True) for ls in ("USD", "BTC")]
+    # partial fills against liquidity that is not a multiple of the base precision (25 % of 127.83333333 at precision 0)
+    ps.append(dict(plan="single", depth=2, bp=0, qp=2, liq="vsi", vols=["10", "127.83333333"], namounts=3,
+                   kinds=["limit", "stop_limit"]))
     return hist.jobs_for(PROPS, ps)
